@@ -448,7 +448,7 @@ def run(ctx):
             if out != real: ctx.divergence('_get_from_identity_map_ class refinement: model and real code disagree', inp, model=out, impl=real)
         elif kind == 'isinstance':
             ctx.case(['isinstance-ast'] + inp, kind='tie:isinstance:' + (real['cond'] if isinstance(real['cond'], str) else 'IN'))
-            mc = out['cond'] if isinstance(out['cond'], str) else sorted(out['cond'])
+            mc = out['cond'] if isinstance(out['cond'], str) else sorted(set(out['cond']))     # the code collects the classes in a set
             if mc != real['cond']:
                 ctx.divergence('FuncIsinstanceMonad: model and the condition in the real AST disagree', inp, model=mc, impl=real['cond'])
             # the theorem's statement on the model's output, restricted to rows in the extent of the iterated entity
